@@ -262,7 +262,7 @@ theorem mapE_proj_ok (t : Table) (ks : List String) (h : ks.all t.cols.contains 
   apply mapE_of_ok
   intro k hk
   have := List.all_eq_true.1 h k hk
-  rw [contains_cols, has_iff_col?] at this
+  rw [contains_cols, has_eq_isSome_col?] at this
   unfold getColE
   cases hc : t.col? k with
   | none => simp [hc] at this
@@ -282,7 +282,7 @@ theorem mapE_proj_err (t : Table) (ks : List String) (h : ¬ ks.all t.cols.conta
       · cases hc; rfl
     | ok c =>
       have hk : t.cols.contains k = true := by
-        rw [contains_cols, has_iff_col?]
+        rw [contains_cols, has_eq_isSome_col?]
         unfold getColE at hc
         split at hc
         · rename_i c' hc'; simp [hc']
